@@ -227,7 +227,7 @@ func runC05(c *core.Ctx) {
 			if f, _ := core.FieldOf(fa); f != r.Closed {
 				return
 			}
-			for _, ref := range *fa.Referrers() {
+			for _, ref := range core.AddrUses(fa) {
 				c.Instance("R3")
 				name := "closed-access/" + core.FName(fn)
 				a := core.AsAtomic(ref)
